@@ -82,6 +82,7 @@ class C07(PropBase):
         "(C03) and marshal to plain data at every level; beyond it only RecursionError is admissible. Non-trivial: d >= 2 and (first call "
         "of a fresh build, or preceded by a real RecursionError abort (F10), a cache clear between build and first call, a deep "
         "trampoline, or another root built first); distinct = distinct (operation digest, pre-state signature) pairs."
+        ' Under the swept exhaustion fault a build or the marshal half of a round trip is first attempted from every stack depth at which it cannot complete.'
     )
     ASSUMPTIONS = ["the member-wise composition law is checked through its consequences: value restored with the same classes at every level, "
                    "structural conformance at every level, plain marshalled data at every level",
